@@ -102,19 +102,20 @@ SCRATCH_BASE = "/dev/shm" if os.path.isdir("/dev/shm") else "/var/tmp"
 
 
 def scratch_dir(tag: str = "") -> str:
-    """A private, pattern-neutral scratch directory (digits only below the base)."""
+    """A private, pattern-neutral scratch directory below /dev/shm/vrf (unique per process)."""
     d = os.path.join(SCRATCH_BASE, "vrf", f"{os.getpid()}{tag}")
     shutil.rmtree(d, ignore_errors=True)
-    os.makedirs(d)
+    for _ in range(5):  # the shared parent may be touched concurrently by other check runs
+        try:
+            os.makedirs(d, exist_ok=True)
+            break
+        except FileNotFoundError:
+            continue
     return d
 
 
 def remove_scratch(d: str) -> None:
     shutil.rmtree(d, ignore_errors=True)
-    try:
-        os.rmdir(os.path.dirname(d))
-    except OSError:
-        pass
 
 
 def write_tree(base: str, files: dict[str, str], dirs=()) -> None:
